@@ -253,7 +253,11 @@ impl<K, V, A: Allocator> CaoHashMap<K, V, A> {
     where
         K: Eq,
     {
-        let new_cap = (self.capacity.max(2) * 3) / 2;
+        let mut new_cap = (self.capacity.max(2) * 3) / 2;
+        // small capacities need more than one step to make room for the next item
+        while Self::needs_grow(self.count + 1, new_cap) {
+            new_cap = (new_cap * 3) / 2;
+        }
         debug_assert!(new_cap > self.capacity);
         unsafe { self.adjust_capacity(new_cap) }
     }
@@ -262,6 +266,12 @@ impl<K, V, A: Allocator> CaoHashMap<K, V, A> {
     where
         K: Eq,
     {
+        // moving the items must not grow the new buffers again: a failure in the middle of the
+        // move would lose the items not moved yet
+        let mut capacity = capacity;
+        while Self::needs_grow(self.count, capacity) {
+            capacity = (capacity.max(2) * 3) / 2;
+        }
         let (mut data, mut keys, mut values) = Self::alloc_storage(&self.alloc, capacity)?;
         swap(&mut self.data, &mut data);
         swap(&mut self.keys, &mut keys);
